@@ -199,8 +199,8 @@ func MkdirAll(fs FS, path string, perm FileMode) error {
 	if !ValidPath(path) {
 		return &PathError{Op: "mkdirall", Path: path, Err: ErrInvalid}
 	}
-	for i := 0; i < len(path); i++ {
-		if path[i] == '/' {
+	for i := 0; i <= len(path); i++ {
+		if i == len(path) || path[i] == '/' { // every ancestor, then the path itself: an existing directory is not an error
 			err := Mkdir(fs, path[:i], perm)
 			if err != nil {
 				pathErr, ok := err.(*PathError)
@@ -217,7 +217,7 @@ func MkdirAll(fs FS, path string, perm FileMode) error {
 			}
 		}
 	}
-	return Mkdir(fs, path, perm)
+	return nil
 }
 
 // Remove removes a file with fs.Remove(). Fails with a not implemented error if it's not a RemoveFS.
